@@ -1,7 +1,7 @@
 (* C17 -- Probability truncation clips exactly and is applied wherever requested. *)
 From Coq Require Import QArith ZArith List.
-From Zepid Require Import Base.QUtil Model.Bounds Proofs.BoundsProofs GenProofs.GenProofs_pbounds.
-From ZepidGen Require Import Gen_pbounds_Q.
+From Zepid Require Import Base.QUtil Model.Bounds Proofs.BoundsProofs GenProofs.GenProofs_pbounds GenProofs.GenProofs_gener Model.Generalize.
+From ZepidGen Require Import Gen_pbounds_Q Gen_gener_Q.
 Import ListNotations.
 Open Scope Q_scope.
 
@@ -61,6 +61,16 @@ Theorem C17_src_float_is_clip : forall b v, 0 <= b -> b <= 1 - b ->
   exists x, pb_float_Q b v = Some x /\ x == clip1 b (1 - b) v.
 Proof. exact gen_pb_float_is_clip. Qed.
 
+(* IPSW.sampling_model(bound=...) in the CURRENT source: every fitted probability entering the weight has passed through
+   probability_bounds (pb) first -- the denominator always, the numerator exactly when it is a fitted one (stabilized=True);
+   the unstabilised weight does not depend on a numerator at all *)
+Theorem C17_src_ipsw_sampling_bounds_applied : forall gn stab pb n d,
+  src_ipsw_samp_b gn stab pb n d == samp_w gn stab (if stab then pb n else n) (pb d).
+Proof. exact gen_ipsw_samp_bounded. Qed.
+Theorem C17_src_ipsw_unstabilized_ignores_numerator : forall gn pb n n' d,
+  src_ipsw_samp_b gn false pb n d == src_ipsw_samp_b gn false pb n' d.
+Proof. exact gen_ipsw_samp_unstab_ignores_numerator. Qed.
+
 Print Assumptions C17_symmetric_is_clip.
 Print Assumptions C17_pair_is_clip.
 Print Assumptions C17_seq_clip_is_clip.
@@ -74,3 +84,5 @@ Print Assumptions C17_validate_accepts.
 Print Assumptions C17_src_float_branch.
 Print Assumptions C17_src_pair_branch.
 Print Assumptions C17_src_float_is_clip.
+Print Assumptions C17_src_ipsw_sampling_bounds_applied.
+Print Assumptions C17_src_ipsw_unstabilized_ignores_numerator.
